@@ -339,3 +339,51 @@ Proof.
   apply attr_in_spec in Ep as (Hin & Hk & _). apply first_owner_in in Ek as [Hch _].
   apply IH. apply create_inv; [exact H|exact Hin|now rewrite Hk].
 Qed.
+
+Theorem invb_sound s : invb s = true -> inv s.
+Proof.
+  unfold invb. rewrite forallb_forall. intro H. split.
+  - intros a Hin. specialize (H a Hin). apply andb_true_iff in H as [H _]. apply andb_true_iff in H as [H _].
+    now apply Nat.eqb_eq.
+  - intros a Hin. specialize (H a Hin). apply andb_true_iff in H as [H _]. apply andb_true_iff in H as [_ H].
+    unfold alive. destruct (dict_at s (a_table a)) as [d|]; [|discriminate]. eauto.
+  - intros a q c Hin Hp. specialize (H a Hin). apply andb_true_iff in H as [_ H].
+    rewrite Hp, rev_app_distr in H. cbn in H. rewrite rev_involutive in H.
+    destruct (in_dec cpath_eq_dec q (table s (a_table a))); [assumption|discriminate].
+Qed.
+
+Lemma prefixb_app : forall p q r, prefixb p q = true -> prefixb p (q ++ r) = true.
+Proof.
+  induction p as [|x p IH]; intros [|y q] r H; cbn in *; try reflexivity; try discriminate.
+  destruct (list_eq_dec N.eq_dec x y); [now apply IH|discriminate].
+Qed.
+
+Lemma prefixb_length : forall p q, prefixb p q = true -> length p <= length q.
+Proof.
+  induction p as [|x p IH]; intros [|y q] H; cbn in *; try lia; try discriminate.
+  destruct (list_eq_dec N.eq_dec x y); [apply IH in H; lia|discriminate].
+Qed.
+
+(** removing an attribute with everything below it (or only what is below it) *)
+Theorem remove_below_inv s i p strict : inv s -> inv (remove_below s i p strict).
+Proof.
+  intros H. unfold remove_below. destruct (first_owner s (chain s i) p) as [k|]; [|exact H].
+  destruct H as [Ho Ha Hc].
+  set (f := fun a : cattr => negb (Nat.eqb (a_tree a) k && prefixb p (a_path a) &&
+                                   (negb strict || Nat.ltb (length p) (length (a_path a))))).
+  split.
+  - intros a Hin. cbn in Hin. apply filter_In in Hin as [Hin _]. now apply Ho.
+  - intros a Hin. cbn in Hin. apply filter_In in Hin as [Hin _]. exact (Ha a Hin).
+  - intros a q c Hin Hp. cbn in Hin. apply filter_In in Hin as [Hin Hf].
+    pose proof (Hc a q c Hin Hp) as Hq. apply in_table in Hq as (b & Hb & Hbt & Hbp).
+    apply in_table. exists b. split; [|auto]. cbn. apply filter_In. split; [exact Hb|].
+    apply negb_true_iff. apply negb_true_iff in Hf.
+    destruct (Nat.eqb (a_tree b) k && prefixb p (a_path b) &&
+              (negb strict || Nat.ltb (length p) (length (a_path b)))) eqn:E; [|reflexivity].
+    exfalso. apply andb_true_iff in E as [E E3]. apply andb_true_iff in E as [E1 E2].
+    apply Nat.eqb_eq in E1. rewrite Hbp in E2.
+    assert (T : a_tree a = k) by (rewrite <- (Ho a Hin), <- Hbt, (Ho b Hb); exact E1).
+    rewrite T, Nat.eqb_refl, Hp, (prefixb_app p q [c] E2) in Hf. cbn in Hf.
+    apply orb_false_iff in Hf as [_ Hf]. apply Nat.ltb_ge in Hf.
+    apply prefixb_length in E2. rewrite app_length in Hf. cbn in Hf. lia.
+Qed.
